@@ -132,6 +132,8 @@ func cmdWorker(args []string) int {
 		}
 	}
 	eng.Verbose = *verbose
+	eng.NoPCRestore = os.Getenv("VERIF_NO_PC_RESTORE") != ""
+	eng.NoMerge = os.Getenv("VERIF_NO_MERGE") != ""
 	eng.PermuteMaps = pd.PermuteMaps
 	if pd.Unwind > 0 {
 		eng.Unwind = pd.Unwind
